@@ -77,6 +77,10 @@ func runC10(l *core.Ledger) {
 	l.Rule("C10-N4", "every timer wait reachable from the stream reader sits in a select with a case on a signal channel that every other goroutine root raises after clearing streamBroken")
 	l.Rule("C10-N5", "the reader goroutine start is guarded by the connEstablished test-and-set; who-may-call newNodeStream = {connect}")
 
+	l.Rule("C10-N6", "a stream restored by one goroutine is not replaced or emptied by the other: reconnect re-checks under the write lock (C09-W2 re-run); pending calls are failed only by the stream reader on its own read error, never on the (re)connection path; every node of the configuration is handed its request (C02-T4 re-run: no node is skipped because of its connection state)")
+	l.With(map[string]string{"C09-W2": "C10-N6"}, func() { c09W2(l, r) })
+	l.With(map[string]string{"C02-T4": "C10-N6"}, func() { c02T4(l, r) })
+	c10N6(l, r)
 	c10N1(l, r)
 	c10N2(l, r)
 	c10N3(l, r)
@@ -762,4 +766,70 @@ func c10N5(l *core.Ledger, r *rt) {
 		})
 	}
 	l.Check(len(callers) == 1 && strings.HasSuffix(callers[0], ".connect"), "C10-N5", "who-may-call/"+fnKey(f), f.Pos(), "called only from connect", fmt.Sprintf("%s is called from %v", fnKey(f), callers))
+}
+
+// c10N6: who may fail all pending calls. The routine that ranges over the
+// router map and answers every entry with an error is for the stream reader's
+// read-error edge. On the (re)connection path it fails the very request the
+// sender is about to write to the restored stream: the restarted server
+// handles it and replies, and the reply finds no router.
+func c10N6(l *core.Ledger, r *rt) {
+	rm := buildRouterModel(l, r, "C10-N6")
+	if rm == nil {
+		return
+	}
+	cancelFns := map[*ssa.Function]bool{}
+	for _, d := range rm.deliveries {
+		if d.viaLoop {
+			cancelFns[d.fn] = true
+		}
+	}
+	if len(cancelFns) == 0 {
+		l.Unknown("C10-N6", "anchor/cancel-all", token.NoPos, "no routine that answers every pending call found")
+		return
+	}
+	isReader := func(f *ssa.Function) bool {
+		return f != nil && len(recvMsgCalls(f)) > 0
+	}
+	n := 0
+	for _, f := range allFuncs(l.Prog, r.pkg) {
+		f := f
+		if cancelFns[f] && !isReader(f) {
+			// reported at its call sites
+		}
+		sx.AllInstrs(f, func(_ sx.Node, in ssa.Instruction) {
+			cc := sx.CallOf(in)
+			if cc == nil || cc.StaticCallee() == nil || !cancelFns[cc.StaticCallee()] {
+				return
+			}
+			n++
+			key := fmt.Sprintf("%s/fail-all%d", fnKey(f), n)
+			top := f
+			for top.Parent() != nil {
+				top = top.Parent()
+			}
+			if !isReader(top) {
+				l.Bad("C10-N6", key, sx.PosOf(in), "every pending call of the node is failed from "+fnKey(f)+", which is not the stream reader: on the (re)connection path this answers 'stream is down' to a request that is then written to the restored stream; the restarted server handles it and its reply finds no router")
+				return
+			}
+			// in the reader: only on the error edge of its own RecvMsg
+			rc := recvMsgCalls(top)[0]
+			m := func(o sx.Origin) bool { return (o.Kind == sx.KCall || o.Kind == sx.KExtract) && o.V == ssa.Value(rc) }
+			var errEdges []sx.Edge
+			sx.AllInstrs(top, func(_ sx.Node, in2 ssa.Instruction) {
+				if ifi, ok := in2.(*ssa.If); ok && isErrNonNil(ifi, m) != 0 {
+					errEdges = append(errEdges, errEdge(ifi, m, true))
+				}
+			})
+			ok := f == top && edgesDominate(top, errEdges, sx.NodeOf(in))
+			l.Check(ok, "C10-N6", key, sx.PosOf(in), "only on the reader's own read-error edge", "the reader fails every pending call on a path that is not the error edge of its RecvMsg")
+		})
+	}
+	for f := range cancelFns {
+		if isReader(f) {
+			n++
+			l.OK("C10-N6", fnKey(f)+"/fail-all-inline", f.Pos(), "the reader itself ranges over the routers")
+		}
+	}
+	l.Floor("C10-N6", n, 1, "call sites of the routine that fails all pending calls")
 }
